@@ -8,6 +8,7 @@ import time
 
 import vlib
 import p_val
+import p_runtime
 from vlib import ToolError, log
 
 FAMILIES_QUICK = [("prim", 1), ("object", 1), ("tuple", 1), ("union", 1), ("tpl", 1), ("nonjson", 1), ("format", 1), ("disc", 1), ("util", 1), ("twin", 0)]
@@ -103,8 +104,15 @@ def run(prop, tier):
     nb = p_val.builders(cases)
     cases += nb
     log(f"[gen] + {len(nb)} parsers built with the b API")
-    p_val.observe(cases, tag, ops=("parse",))
+    p_val.observe(cases, tag, ops=("parse", "tree") if prop == "C03" else ("parse",))
     recs = build_records(cases)
+    rcov, drift = {}, []
+    if prop == "C03":
+        # level (A): safeParse results against the runtime model (Runtime!RtParse: projection, deep merge, key order)
+        rcov, drift, _ = p_runtime.stage(cases, {i: c["_obs"] for i, c in enumerate(cases) if "_obs" in c}, tag + "-rtm", with_parse=True)
+        for k, dr in enumerate(drift[:20]):
+            vlib.write_replay(prop, f"{tier}-drift{k}", dict(dr, property=prop, complaint="model-drift (not a violation by itself)"))
+            log(f"MODEL-DRIFT {dr['what']} probe={dr['probe']} :: {dr['program'].strip().splitlines()[-2][:120] if dr['program'].strip() else ''}")
     open_k = vlib.open_findings("C03") + vlib.open_findings("C12")
     open_devs = {k["deviation"] for k in open_k if k.get("deviation")}
     judged, consumed, tstates = judge(recs, tag, open_devs)
@@ -147,6 +155,7 @@ def run(prop, tier):
         "programs": len(cases), "parsers_built_with_b_api": len(nb), "families": gstats["families"], "calls_judged": ncalls,
         "calls_rejected_by_validator": nfail, "calls_accepted_by_validator": ncalls - nfail,
         "known_findings_hit": sorted({k for k, _ in known_hits}), "binding_selftest": neg, "exhaustive": False, "exhaustively_enumerated_depth": max(dp for _, dp in fams),
+        **rcov,
         "rule": "every program of each TypeGen family (TLC breadth-first) x type-directed probes x 4 ParseOptions "
                 "combinations; a case is one (program, value, options) call judged by Trace_Parse.tla",
     }
